@@ -148,7 +148,10 @@ class Facts:
     def top_fn(self, f):
         """Enclosing non-closure function of a closure (or f itself)."""
         while f["kind"] == "Closure":
-            f = self.fn_by_id[f["parent"]]
+            g = self.fn_by_id.get(f["parent"])
+            if g is None:
+                return f   # closure inside a const/static initialiser
+            f = g
         return f
 
     def file_line(self, f, line=None):
